@@ -115,4 +115,72 @@ theorem isOrtho_rotZ (c s : K) (h : c * c + s * s = 1) : IsOrtho (⟨⟨c, -s, 0
   · ring
   · ring
   · ring
+/-! ## definitional restatements for the mobility-level constraints (not counted as property obligations):
+`perr = q − pos`, `pverr = qdot`, … are their own derivative hierarchy by inspection -/
+namespace ConstantCoordinate
+theorem pverr_is_derivative (pos : K) (x : Q3 K) : (perr (⟨pos, 0⟩ : Jet1 K) ⟨⟨x.q, x.qd⟩, ⟨x.qd, x.qdd⟩, ⟨x.qdd, 0⟩⟩).eps = pverr x := by
+  simp [perr, pverr]
+theorem paerr_is_derivative (x : Q3 K) : (pverr (⟨⟨x.q, x.qd⟩, ⟨x.qd, x.qdd⟩, ⟨x.qdd, 0⟩⟩ : Q3 (Jet1 K))).eps = paerr x := by
+  simp [pverr, paerr]
+theorem force_adjoint (x : Q3 K) (lam : K) : lam * pverr x = qforce lam * x.qd := by simp [pverr, qforce]
+end ConstantCoordinate
+
+namespace ConstantSpeed
+theorem vaerr_is_derivative (speed u udot : K) : (verr (⟨speed, 0⟩ : Jet1 K) ⟨u, udot⟩).eps = vaerr udot := by
+  simp [verr, vaerr]
+theorem force_adjoint (u lam : K) : lam * (verr 0 u) = uforce lam * u := by simp [verr, uforce]
+end ConstantSpeed
+
+namespace ConstantAcceleration
+/-- acceleration-only: the force is the transpose of `∂aerr/∂udot` -/
+theorem force_adjoint (udot lam : K) : lam * (aerr 0 udot) = uforce lam * udot := by simp [aerr, uforce]
+end ConstantAcceleration
+
+namespace PrescribedMotion
+/-- `f fd fdd fddd`: the user function of time and its derivatives (the contract of `Function::calcDerivative`) -/
+theorem pverr_is_derivative (x : Q3 K) (f fd : K) :
+    (perr (⟨⟨x.q, x.qd⟩, ⟨x.qd, x.qdd⟩, ⟨x.qdd, 0⟩⟩ : Q3 (Jet1 K)) ⟨f, fd⟩).eps = pverr x fd := by
+  simp [perr, pverr]
+theorem paerr_is_derivative (x : Q3 K) (fd fdd : K) :
+    (pverr (⟨⟨x.q, x.qd⟩, ⟨x.qd, x.qdd⟩, ⟨x.qdd, 0⟩⟩ : Q3 (Jet1 K)) ⟨fd, fdd⟩).eps = paerr x fdd := by
+  simp [pverr, paerr]
+/-- adjoint for the part of `pverr` that is linear in `qdot` (the bias `−f'(t)` does no virtual work) -/
+theorem force_adjoint (x : Q3 K) (fd lam : K) : lam * (pverr x fd - pverr ⟨x.q, 0, x.qdd⟩ fd) = qforce lam * x.qd := by
+  simp [pverr, qforce]
+end PrescribedMotion
+
+/-! ### couplers, relative to the user Function's derivatives -/
+
+theorem dotL_jet (g gd x xd : List K) (hl : g.length = gd.length) (hx : x.length = xd.length)
+    (hgx : g.length = x.length) :
+    (dotL (List.zipWith (fun a b => (⟨a, b⟩ : Jet1 K)) g gd) (List.zipWith (fun a b => (⟨a, b⟩ : Jet1 K)) x xd)).eps
+      = dotL g xd + dotL gd x := by
+  induction g generalizing gd x xd with
+  | nil =>
+    cases gd with
+    | nil => simp [dotL]
+    | cons b bs => simp at hl
+  | cons a as ih =>
+    cases gd with
+    | nil => simp at hl
+    | cons b bs =>
+      cases x with
+      | nil => simp at hgx
+      | cons y ys =>
+        cases xd with
+        | nil => simp at hx
+        | cons z zs =>
+          simp only [List.zipWith_cons_cons, dotL, Jet1.add_eps, Jet1.mul_eps]
+          rw [ih bs ys zs (by simpa using hl) (by simpa using hx) (by simpa using hgx)]
+          ring
+
+
+theorem dotL_smul (lam : K) (g x : List K) : dotL (g.map (fun gi => lam * gi)) x = lam * dotL g x := by
+  induction g generalizing x with
+  | nil => simp [dotL]
+  | cons a as ih => cases x with
+    | nil => simp [dotL]
+    | cons y ys => simp only [List.map_cons, dotL, ih]; ring
+
+
 end ConstraintEq
